@@ -276,3 +276,6 @@ func (vw *View) SpecName(id int) string {
 }
 
 var _ = gram.IsLit
+
+// OK2 is OK for results of Generate (no visitor is returned there).
+func (r *Result) OK2() bool { return r.Err == nil && r.Panic == "" && !r.Fuel }
